@@ -158,6 +158,8 @@ pub struct World {
     pub ready: std::collections::BTreeSet<u32>,
     /// children whose destructor panics (once)
     pub drop_panic: std::collections::BTreeSet<u32>,
+    /// children do not keep their waker
+    pub nokeep: bool,
 }
 
 pub static WORLD: Mutex<Option<World>> = Mutex::new(None);
@@ -202,6 +204,7 @@ pub fn reset_world(hooklog: bool) {
         mute: false,
         ready: Default::default(),
         drop_panic: Default::default(),
+        nokeep: false,
     });
     SEQ.store(0, Ordering::SeqCst);
     TW_CLONES.store(0, Ordering::SeqCst);
